@@ -5,6 +5,9 @@
 #include <PhQ/Base.hpp>
 
 #include <cerrno>
+#include <cstring>
+#include <memory>
+#include <string_view>
 
 #include "vf.hpp"
 static const unsigned char SIGMA[] = {'0', '1', '9', '.', 'e', 'E', '+', '-', 'x', 'p', 'n', 'a', 'i', 'f', ',', ' ', '\t', 0, 0xff, 0xce};
@@ -15,6 +18,39 @@ static T strto(const char* s, char** end) {
   if constexpr (std::is_same_v<T, double>) return std::strtod(s, end);
   if constexpr (std::is_same_v<T, long double>) return std::strtold(s, end);
 }
+// If the parser (also) accepts a non-owning view, the bytes it may read are those of the view: the same bytes are handed over
+// once more as a view into a heap block of exactly that size with no terminator behind it; the answer must not change
+// (and under AddressSanitizer any read behind the block is reported). On a tree where only std::string is accepted the probe
+// is not instantiated.
+template <class T, class = void>
+struct TakesView : std::false_type {};
+template <class T>
+struct TakesView<T, std::void_t<decltype(PhQ::ParseNumber<T>(std::declval<std::string_view>()))>> : std::true_type {};
+template <class T>
+static void one_view(const std::string& s, const std::optional<T>& by_string) {
+  if constexpr (TakesView<T>::value) {
+    std::unique_ptr<char[]> block(new char[s.size() ? s.size() : 1]);
+    std::memcpy(block.get(), s.data(), s.size());
+    std::optional<T> got;
+    bool threw = false;
+    try {
+      got = PhQ::ParseNumber<T>(std::string_view(block.get(), s.size()));
+    } catch (...) {
+      threw = true;
+    }
+    vf::stat("views_parsed");
+    const bool same = !threw && got.has_value() == by_string.has_value() && (!got.has_value() || vf::same_bits(got.value(), by_string.value()));
+    if (!same) {
+      std::string hx;
+      for (unsigned char c : s) {
+        char b[4];
+        std::snprintf(b, sizeof b, "%02x", c);
+        hx += b;
+      }
+      vf::viol(std::string("parse-number|") + vf::TName<T>::value + "|view-differs-from-string", "{\"string_hex\":\"" + hx + "\",\"what\":\"the same bytes as an unterminated view parse differently\"}");
+    }
+  }
+}
 template <class T>
 static void one(const std::string& s) {
   std::optional<T> got;
@@ -24,6 +60,7 @@ static void one(const std::string& s) {
   } catch (...) {
     threw = true;
   }
+  if (!threw) one_view<T>(s, got);
   errno = 0;
   char* end = nullptr;
   const T v = strto<T>(s.c_str(), &end);
